@@ -12,3 +12,47 @@ package aggregate
 //@ func NewKHashAggregate
 //@   requires stepsBatch >= 0
 //@   ensures[C08] never-fails: result1 == nil && result0 != nil
+
+// ---- vector_table.go: aggregation over all series (by ()) ----------------------------------------
+// The accumulator of a vectorized table may be a gonum function that panics on an empty slice:
+// it is only ever called with at least one sample.
+//@ extern field:execution/aggregate.vectorTable.accumulator(in) r
+//@   requires[C13] nonempty-input: len(in) > 0
+//@   pure
+
+// aggregate: one step. The table describes this step only: it is stamped with the step's
+// timestamp and has a value iff the step has samples (C04, C07, C18).
+//@ func (*vectorTable).aggregate
+//@   requires t != nil && !isnil(t.accumulator) && len(vector.SampleIDs) == len(vector.Samples)
+//@   assigns aggregate.vectorTable.timestamp, aggregate.vectorTable.value, aggregate.vectorTable.hasValue
+//@   ensures[C04,C07,C18] stamped-with-step: t.timestamp == vector.T
+//@   ensures[C04,C07] value-iff-samples: t.hasValue == (len(vector.SampleIDs) > 0)
+//@   ensures[C04] value-is-accumulated: t.hasValue ==> t.value == callres("field:execution/aggregate.vectorTable.accumulator", 1)
+//@   at field:execution/aggregate.vectorTable.accumulator assert[C04] accumulates-this-steps-samples: sameslice($in, vector.Samples)
+
+//@ func (*vectorTable).toVector
+//@   requires t != nil && pool != nil
+//@   assigns nothing
+//@   ensures[C04,C18] stamped: result.T == t.timestamp
+//@   ensures[C04,C18] empty-without-value: !t.hasValue ==> len(result.SampleIDs) == 0 && len(result.Samples) == 0
+//@   ensures[C04,C18] single-output-series: t.hasValue ==> len(result.SampleIDs) == 1 && len(result.Samples) == 1 &&
+//@       result.SampleIDs[0] == 0 && result.Samples[0] == t.value
+
+//@ func newVectorAccumulator
+//@   assigns nothing
+//@   ensures[C08] err-is-unsupported: result1 != nil ==> result1.isNS && isnil(result0)
+//@   ensures ok: result1 == nil ==> !isnil(result0)
+//@ func newVectorAccumulator$1
+//@   ensures[C04] count: result == float64(len(in))
+//@ func newVectorAccumulator$2
+//@   requires len(in) > 0
+//@   ensures[C04] avg-is-sum-over-count: result == callres("floats.Sum", 1) / float64(len(in))
+//@   at floats.Sum assert[C04] sums-the-input: sameslice($s, in)
+//@ func newVectorAccumulator$3
+//@   ensures[C04] group: result == 1.0
+
+//@ func newVectorizedTables
+//@   requires stepsBatch >= 0
+//@   ensures[C08] err-is-unsupported: result1 != nil ==> result1.isNS && isnil(result0)
+//@   ensures[C04,C18] one-table-per-step: result1 == nil ==> len(result0) == stepsBatch && (forall i in 0..stepsBatch :: result0[i] != nil)
+//@   loop 0 invariant 0 <= i && i <= stepsBatch && len(tables) == stepsBatch && fresh(tables) && (forall j in 0..i :: tables[j] != nil)
